@@ -1448,10 +1448,12 @@ class Interp(object):
                     "strip", "isdigit", "isascii", "rjust", "ljust", "zfill", "count", "index", "lstrip", "rstrip"}
 
     def py_getattr(self, obj, name, node=None):
-        if isinstance(obj, (str, list, tuple, dict, set, frozenset, int, Fraction, bool)) or obj is None:
+        if isinstance(obj, (str, list, tuple, dict, set, frozenset, int, Fraction, bool, range)) or obj is None:
             if not hasattr(obj, name):
                 raise AbsRaise("AttributeError", ("%s has no attribute %s" % (type(obj).__name__, name),))
             if isinstance(obj, (int, Fraction)) and name in ("numerator", "denominator", "real", "imag"):
+                return getattr(obj, name)
+            if isinstance(obj, range) and name in ("start", "stop", "step"):
                 return getattr(obj, name)
             return Prim(lambda it, a, k, o=obj, n=name: it.py_method(o, n, a, k), "%s.%s" % (type(obj).__name__, name))
         import re as _re
@@ -2427,7 +2429,10 @@ def _mk_seq(ctor):
 def _b_range(it, a, k):
     if any(isinstance(x, Abs) for x in a):
         it.unsupported("range over symbolic bounds")
-    return list(range(*a))
+    try:
+        return range(*a)
+    except (TypeError, ValueError) as ex:
+        raise AbsRaise(type(ex).__name__, ex.args)
 
 
 def _b_all(it, a, k):
